@@ -382,7 +382,7 @@ func TestC03(t *testing.T) {
 			// separators, brackets and quotes inside string arguments; arguments that are Go expressions rather than plain literals
 			`%a("x,y")%`, `%a("x ,y")%`, `%a("a,,b")%`, `%a("1,000", 2)%`, `%a("(")%`, `%a(")")%`, `%a("))")%`, `%a("f(x), g(y)")%`, `%a("a\"b,c")%`,
 			`%a((1))%`, `%a(("x"))%`, `%a(int(5))%`, `%a(string("s)"))%`, `%a(float64(2))%`, `%a(1, (2))%`, `%a((1), 2)%`, `%a(((true)))%`,
-			`%todo("a,b")%`, `%todo(("later"))%`, `%env("VERIF_UNSET", "1,000")%`, `%env("VERIF_UNSET", ("d)"))%`, `%envInt("VERIF_UNSET", int(8080))%`, `%envInt("VERIF_UNSET", (3))%`, `x%a("p,q")%y%a((7))%`,
+			`%todo("a,b")%`, `%todo(("later"))%`, `%todo("")%`, `%todo("", "x")%`, `%env("VERIF_UNSET", "1,000")%`, `%env("VERIF_UNSET", ("d)"))%`, `%envInt("VERIF_UNSET", int(8080))%`, `%envInt("VERIF_UNSET", (3))%`, `x%a("p,q")%y%a((7))%`,
 			// the registered function is the one the alias table denotes; the same function used by several tokens
 			`%a()%`, `%b()%`, `%e()%`, `%b("x")%`, `%e(1)%`, `%b()%-%b()%`, `%a()%%b()%%e()%%a()%`, `%e()%:%e("again")%:%e()%`,
 			// a percent sign spelled with an escape inside a string argument
